@@ -7,7 +7,7 @@ d = f"/verif/seeded/{name}"
 cmd = ["/verif/seedtest.sh", prop, f"{d}/patch.diff"] + rest
 out = subprocess.run(cmd, stdout=subprocess.PIPE, stderr=subprocess.STDOUT, text=True).stdout
 det = []
-for m in re.finditer(r"^\s+(Verif\w+) assert=(\S+)", out, re.M):
+for m in re.finditer(r"^\s+((?:Verif|design:|history:)[\w:]+) assert=(\S+)", out, re.M):
     s = f"{m.group(1)} {m.group(2)}"
     if s not in det:
         det.append(s)
